@@ -131,6 +131,24 @@ pub fn check_candidate(a: &Args) {
     println!("replies={}", out.join(","));
 }
 
+/// node_check_session cases=<srv/nonces/peers/auth/name/nonce/this;..>
+pub fn check_session(a: &Args) {
+    let rt = tokio::runtime::Builder::new_current_thread().enable_time().build().unwrap();
+    let mut out = Vec::new();
+    for case in a.str("cases").split(';').filter(|s| !s.is_empty()) {
+        let p: Vec<&str> = case.split('/').collect();
+        let lst = |s: &str| -> Vec<String> { s.split('.').filter(|x| !x.is_empty()).map(|x| x.to_string()).collect() };
+        let srv = lst(p[0]);
+        let non = lst(p[1]);
+        let peers = lst(p[2]);
+        let sessions: Vec<(bool, u64, String)> = (0..srv.len()).map(|i| (srv[i] == "1", non[i].parse().unwrap(), peers[i].clone())).collect();
+        let auth: Vec<u64> = lst(p[3]).iter().map(|x| x.parse().unwrap()).collect();
+        let r = rt.block_on(np::verif_check_session(&sessions, &auth, p[4], p[5].parse().unwrap(), p[6]));
+        out.push(r);
+    }
+    println!("replies={}", out.join(","));
+}
+
 /// session_mirror have=<pids> enrolled=0|1 kind=<Spawn|Terminate|PgJoin|PgLeave> list=<pids>
 pub fn mirror(a: &Args) {
     let have: Vec<u64> = a.list_u128("have").iter().map(|x| *x as u64).collect();
